@@ -28,6 +28,9 @@ type C15Op struct {
 
 type C15Case struct {
 	Ops []C15Op `json:"ops"`
+	// Nested: 0 = the three loaders are registered on the engine one by one; 1 = the engine has one
+	// ChainLoader of the three; 2 = a ChainLoader of loader 0 and an inner ChainLoader of loaders 1, 2
+	Nested int `json:"nested,omitempty"`
 }
 
 type c15Entry struct {
@@ -87,9 +90,19 @@ func runC15(c C15Case) (c15Stats, error) {
 	e := twig.New()
 	raw := []*c15Loader{newC15Loader(), newC15Loader(), newC15Loader()}
 	tsAware := []bool{true, false, true}
-	e.RegisterLoader(c15TSLoader{raw[0]})
-	e.RegisterLoader(raw[1])
-	e.RegisterLoader(c15TSLoader{raw[2]})
+	switch c.Nested {
+	case 1:
+		// a ChainLoader has no timestamps: first loader that has the name wins, no reload claims
+		tsAware = []bool{false, false, false}
+		e.RegisterLoader(twig.NewChainLoader([]twig.Loader{c15TSLoader{raw[0]}, raw[1], c15TSLoader{raw[2]}}))
+	case 2:
+		tsAware = []bool{false, false, false}
+		e.RegisterLoader(twig.NewChainLoader([]twig.Loader{c15TSLoader{raw[0]}, twig.NewChainLoader([]twig.Loader{raw[1], c15TSLoader{raw[2]}})}))
+	default:
+		e.RegisterLoader(c15TSLoader{raw[0]})
+		e.RegisterLoader(raw[1])
+		e.RegisterLoader(c15TSLoader{raw[2]})
+	}
 	cacheOn, autoReload := true, false
 	cache := map[string]c15Cached{}
 	registered := map[string]bool{} // names whose cache entry came from RegisterString at some point
@@ -135,7 +148,14 @@ func runC15(c C15Case) (c15Stats, error) {
 				continue
 			}
 			version++
-			if err := e.RegisterString(name, fmt.Sprintf("v%d", version)); err != nil {
+			if op.Loader%3 == 1 {
+				// a parsed template (which carries no name of its own) registered under the name
+				tp, err := e.ParseTemplate(fmt.Sprintf("v%d", version))
+				if err != nil {
+					return st, fmt.Errorf("op %d: ParseTemplate failed: %v", i, err)
+				}
+				e.RegisterTemplate(name, tp)
+			} else if err := e.RegisterString(name, fmt.Sprintf("v%d", version)); err != nil {
 				return st, fmt.Errorf("op %d: RegisterString failed: %v", i, err)
 			}
 			if _, ok := cache[name]; ok {
@@ -406,13 +426,14 @@ func TestC15Cache(t *testing.T) {
 		for i := 0; i < n; i++ {
 			c.Ops = append(c.Ops, genC15Op(rt))
 		}
+		c.Nested = []int{0, 0, 0, 1, 2, 2}[rapid.IntRange(0, 5).Draw(rt, "nested")]
 		st, err := runC15(c)
 		for k, v := range st.excluded {
 			r.ClassN("excluded:"+k, v)
 		}
 		r.ClassN("reads", st.reads)
 		r.ClassN("reads-after-change-of-a-cached-name", st.changesAfterCache)
-		r.Case(fmt.Sprint(c.Ops), st.nontrivial, c.Ops[:min(8, len(c.Ops))])
+		r.Case(fmt.Sprint(c.Nested, c.Ops), st.nontrivial, c.Ops[:min(8, len(c.Ops))], fmt.Sprintf("loaders:%s", []string{"registered one by one", "one ChainLoader", "nested ChainLoaders"}[c.Nested]))
 		if err != nil {
 			r.Fail(rt, "C15.cache", c, err)
 		}
@@ -690,6 +711,14 @@ func TestC15Files(t *testing.T) {
 				C15FSOp{Op: "autoreload", On: rapid.IntRange(0, 3).Draw(rt, "tcar") != 0}, C15FSOp{Op: "load", Name: nm},
 				C15FSOp{Op: rapid.SampledFrom([]string{"remove", "remove", "touch", "write"}).Draw(rt, "tcchange"), Name: nm, Root: rapid.IntRange(0, 1).Draw(rt, "tcroot")},
 				C15FSOp{Op: "load", Name: nm}, C15FSOp{Op: "render", Name: nm})
+		}
+		if rapid.IntRange(0, 3).Draw(rt, "recreate") == 0 {
+			// a cached file disappears, is asked for while it is gone, and comes back
+			nm := rapid.IntRange(0, len(c15FSNames)-1).Draw(rt, "rcname")
+			rt0 := rapid.IntRange(0, 1).Draw(rt, "rcroot")
+			c.Ops = append(c.Ops, C15FSOp{Op: "autoreload", On: rapid.IntRange(0, 3).Draw(rt, "rcar") != 0}, C15FSOp{Op: "write", Name: nm, Root: rt0}, C15FSOp{Op: "load", Name: nm},
+				C15FSOp{Op: "remove", Name: nm, Root: rt0}, C15FSOp{Op: rapid.SampledFrom([]string{"load", "render"}).Draw(rt, "rcread"), Name: nm},
+				C15FSOp{Op: "write", Name: nm, Root: rapid.IntRange(0, 1).Draw(rt, "rcroot2")}, C15FSOp{Op: "load", Name: nm}, C15FSOp{Op: "render", Name: nm})
 		}
 		if rapid.IntRange(0, 3).Draw(rt, "samemtime") == 0 {
 			// a file is read, then rewritten (same length) under its old modification time; with
